@@ -60,13 +60,13 @@ func fmtPts(m map[uint32]float64) string {
 }
 
 type recEngine struct {
-	o      *pt.Obs
-	series []recSeries
-	opts   sut.Options // options of the first server; restarts use restartOpts
-	c      *sut.Client
-	walDir string
+	o       *pt.Obs
+	series  []recSeries
+	opts    sut.Options // options of the first server; restarts use restartOpts
+	c       *sut.Client
+	walDir  string
 	hostDir string // <dataPath><hostID>/
-	qs, qe uint32
+	qs, qe  uint32
 
 	tsidOf   []uint64
 	haveTsid []bool
